@@ -100,6 +100,8 @@ func (fb *Builder) OptionsFor(parent protoreflect.Descriptor) ([]*OptionDefiniti
 		// field 7 of the Message type is the options field
 		// see google/protobuf/descriptor.proto
 		switch parent.(type) {
+		case protoreflect.FileDescriptor:
+			optionFieldNumberInParent = 8
 		case protoreflect.MessageDescriptor:
 			optionFieldNumberInParent = 7
 		case protoreflect.FieldDescriptor:
